@@ -2,6 +2,7 @@ SPECIFICATION TraceSpec
 CONSTANTS
   Names = {"a", "b", "c"}
   LitPool = {}
+  ActKinds = {}
   MaxScalar = 1000000
 POSTCONDITION TraceAccepted
 CHECK_DEADLOCK FALSE
